@@ -334,12 +334,22 @@ def r4(prog, run):
     rid = run.rule('C19.R4', 'writeData counts exactly the bytes the device accepted and hashes the same buffer', floor=1)
     wd = prog.fn(IJ + '::writeData')
     run.instance(rid)
-    adds = [n for i, n in wd.all_nodes('assign') if n['op'] == '+=' and wd.nodes[wd.skip(n['l'])].get('name') == 'done']
+    adds = [(g, n) for g in prog.closure(wd) for i, n in g.all_nodes('assign') if n['op'] == '+=' and g.nodes[g.skip(n['l'])].get('name') == 'done']
     hashes = [n for i, n in wd.calls('QCryptographicHash::addData')]
     wr = [n for i, n in wd.calls('QIODevice::write')]
     ok = len(adds) == 1 and wr and hashes
+
+    def counted_text(g, e):
+        # what is added: in writeData itself, or the argument handed to a local helper lambda whose parameter is added
+        v = g.nodes[g.resolve(e)]
+        if g.id != wd.id and v['k'] == 'var' and v.get('vk') == 'param' and not v.get('outer'):
+            for i, c in wd.calls():
+                if c.get('op') == '()' and c.get('opargs') and g.id in [l.id for l in prog.lambda_fns(wd, wd.nodes[wd.resolve(c['opargs'][0])])] and len(c['opargs']) > 1 + v.get('pidx', 0):
+                    return wd.fmt(c['opargs'][1 + v['pidx']])
+            return ''
+        return g.fmt(e)
     if ok:
-        ok = 'QIODevice::write(p0)' in wd.fmt(adds[0]['r']) and wd.fmt(hashes[0]['args'][0]) == 'p0' and wd.fmt(wr[0]['args'][0]) == 'p0'
+        ok = 'QIODevice::write(p0)' in counted_text(adds[0][0], adds[0][1]['r']) and wd.fmt(hashes[0]['args'][0]) == 'p0' and wd.fmt(wr[0]['args'][0]) == 'p0'
     if ok:
         run.ok(rid, wd.loc(), 'done += device->write(data); hash.addData(data)')
     else:
